@@ -173,6 +173,13 @@ func (in *c05Injector) inject() {
 	dstCand := locals[c.T.Choose(len(locals), "dstcand")]
 	dst := rig.CandAP(dstCand)
 	src := netip.MustParseAddrPort(pre.Remotes[c.T.Choose(len(pre.Remotes), "src")].Addr[4:])
+	// sometimes the conflicting request comes from an address that is not (yet) a remote candidate: a peer
+	// behind a NAT, or a check that overtakes its trickled candidate
+	unknownSrc := c.T.Bias(1, 3, "unknownsrc")
+	if unknownSrc {
+		src = netip.AddrPortFrom(netip.MustParseAddr("192.0.2.44"), uint16(45000+c.T.Choose(3, "unkport")))
+		c.Probe("conflict-from-unknown-source")
+	}
 	own := in.tb[target.Name]
 	var theirs uint64
 	switch c.T.Choose(6, "theirs") {
@@ -232,7 +239,9 @@ func (in *c05Injector) inject() {
 				c.Failf("C05/reply-misaddressed", "reply to the conflicting request went %s->%s, request came %s->%s", q.Src, q.Dst, src, dst)
 			}
 			replies = append(replies, m)
-		} else if m.IsSTUN && m.Class == stun.ClassRequest {
+		} else if m.IsSTUN && m.Class == stun.ClassRequest && !unknownSrc {
+			// (from an unknown source the authentic request may teach the agent a peer-reflexive candidate,
+			// and a new candidate starts an ordinary check round - that is not a reply to the conflict)
 			c.Failf("C05/treated-as-check", "conflicting request (role=%s keep=%v) triggered a Binding request %s", role, keep, d.Tx.Describe(q))
 		}
 		// the replies are consumed here so that they do not reach the real peer as stray responses
@@ -264,6 +273,14 @@ func (in *c05Injector) inject() {
 	}
 	// differential: no pair / selection / callback change caused by the request
 	diffs := rig.Diff(pre, post, rig.DiffOpts{AllowLastRecv: map[string]bool{"udp/" + src.String(): true}})
+	if unknownSrc {
+		// only the selection and the callbacks are compared: a learned prflx candidate and the check round it
+		// starts legitimately add pairs and bump request counters
+		diffs = nil
+		if pre.Selected != post.Selected || pre.NStates != post.NStates || pre.NPairsEv != post.NPairsEv {
+			diffs = []string{fmt.Sprintf("selected %q -> %q, state callbacks %d -> %d, pair callbacks %d -> %d", pre.Selected, post.Selected, pre.NStates, post.NStates, pre.NPairsEv, post.NPairsEv)}
+		}
+	}
 	if len(diffs) > 0 && !c.Failed() {
 		c.Failf("C05/conflict-changed-state", "conflicting request (role=%s keep=%v) changed observable state: %v", role, keep, diffs)
 	}
